@@ -10,7 +10,7 @@ from vlib.core import Leg, call
 
 PROPERTY = "C11"
 RULE = ("for each row of the Doc 9871 field table (BDS 1,0 1,7 4,0 4,4 4,5 5,0 5,3 6,0; 34 fields): every raw value (<= 2^12, exhaustive) x status x "
-        "sign x k random + 2 boundary (all-zero / all-one / alternating) contents of all other MB bits and of header/address, DF20 and DF21, three letter cases; decoder called as pyModeS.commb.<name> "
+        "sign x k random + 2 boundary (all-zero / all-one / alternating) + 1 corner-mix (every other field of the register at 0/1/max-1/max) contents of all other MB bits and of header/address, DF20 and DF21, three letter cases; decoder called as pyModeS.commb.<name> "
         "(where exported), as pyModeS.decoder.bds.bdsXX.<name>, and through the deprecated aliases; oracle: None iff status clear, else "
         "(two's-complement | unsigned) x LSB + offset, angles mod 360; the result must be identical across contexts; cap17: all single bits and random "
         "24-bit masks. non-trivial = sign bit set, raw at 0/max, or status clear with raw != 0"
@@ -32,6 +32,22 @@ def fn_pair(row):
     return fns
 
 
+def corner_mix(reg, rng):
+    """an MB in which every field of the register (value, status and sign bits) sits on a corner of its range: 0, 1, max-1 or max"""
+    mb = rng.getrandbits(56)
+    for r in ROWS:
+        if r[0] != reg:
+            continue
+        _, _, _, sb, sg, first, last, _, _, _ = r
+        n = last - first + 1
+        mb = D.place(mb, first, last, rng.choice([0, 1, (1 << n) - 2, (1 << n) - 1]))
+        if sb is not None:
+            mb = D.place(mb, sb, sb, rng.getrandbits(1))
+        if sg is not None:
+            mb = D.place(mb, sg, sg, rng.getrandbits(1))
+    return mb
+
+
 def enum_fields(ctx):
     k = 2 if ctx.tier == "quick" else 16
     idx = 0
@@ -45,7 +61,7 @@ def enum_fields(ctx):
                         rng = ctx.rng("f", ri, raw, status, sign)
                         # contexts: random contents of every other MB bit, plus the boundary contents all-zero / all-one / alternating
                         fixed = [0, (1 << 56) - 1, 0xAAAAAAAAAAAAAA, 0x55555555555555]
-                        mbs = [rng.getrandbits(56) for _ in range(k)] + [fixed[(raw + j) % 4] for j in range(2)]
+                        mbs = [rng.getrandbits(56) for _ in range(k)] + [fixed[(raw + j) % 4] for j in range(2)] + [corner_mix(row[0], rng)]
                         # one context per field that is the same for every raw value: consecutive frames then differ in the field only
                         rrow = ctx.rng("row", ri)
                         same = [rrow.getrandbits(56), rrow.getrandbits(27), rrow.getrandbits(24), 20, "U"]
